@@ -12,7 +12,8 @@ R = Result("C03", tier, "exploration")
 g = Garble(name="c03")
 MODP = "example.com/c03"
 P1 = {
-    "main.go": "package main\n\nimport (\n\t\"encoding/json\"\n\t\"fmt\"\n\t\"os\"\n\n\t\"%s/lib\"\n)\n\ntype Doc struct {\n\tTitle string\n\tItems []lib.Item\n\tmeta  map[string]int\n}\n\nfunc main() {\n\td := Doc{\"a reproducible literal title\", lib.Items(3), map[string]int{\"k\": 1}}\n\tb, _ := json.Marshal(d)\n\tfmt.Println(string(b), lib.Sum(d.Items), len(os.Args), lib.Generic([]string{\"x\", \"yy\"}))\n}\n" % MODP,
+    "main.go": "package main\n\nimport (\n\t\"encoding/json\"\n\t\"fmt\"\n\t\"os\"\n\n\t\"%s/dump\"\n\t\"%s/lib\"\n)\n\ntype Doc struct {\n\tTitle string\n\tItems []lib.Item\n\tmeta  map[string]int\n}\n\nfunc main() {\n\td := Doc{\"a reproducible literal title\", lib.Items(3), map[string]int{\"k\": 1}}\n\tb, _ := json.Marshal(d)\n\tfmt.Println(string(b), lib.Sum(d.Items), len(os.Args), lib.Generic([]string{\"x\", \"yy\"}), dump.JSON(d))\n}\n" % (MODP, MODP),
+    "dump/dump.go": "package dump\n\nimport \"encoding/json\"\n\nfunc JSON(v any) string {\n\tb, _ := json.Marshal(v)\n\treturn string(b)\n}\n",
     "lib/lib.go": "package lib\n\nimport (\n\t\"reflect\"\n\t\"sort\"\n\t\"strings\"\n)\n\ntype Item struct {\n\tName  string\n\tCount int\n\ttags  []string\n}\n\nvar registry = map[string]Item{\"one item literal\": {\"one\", 1, nil}, \"two item literal\": {\"two\", 2, nil}, \"three item literal\": {\"three\", 3, nil}}\n\nfunc Items(n int) []Item {\n\tvar out []Item\n\tfor _, it := range registry {\n\t\tout = append(out, it)\n\t}\n\tsort.Slice(out, func(i, j int) bool { return out[i].Count < out[j].Count })\n\treturn out[:n]\n}\n\nfunc Sum(items []Item) string {\n\tt := reflect.TypeOf(items).Elem().Name()\n\tfor _, it := range items {\n\t\tt += strings.ToUpper(it.Name)\n\t}\n\treturn t\n}\n\nfunc Generic[T any](xs []T) int { return len(xs) + int(AsmTwice(int64(len(xs)))) }\n\nfunc AsmTwice(x int64) int64\n",
     "lib/twice_amd64.s": "#include \"textflag.h\"\n\nTEXT ·AsmTwice(SB),NOSPLIT,$0-16\n\tMOVQ x+0(FP), AX\n\tADDQ AX, AX\n\tMOVQ AX, ret+8(FP)\n\tRET\n",
 }
@@ -73,6 +74,12 @@ for cname, fl, env in configs:
                 c2 = fresh(tag + "-depsfirst")
                 build(tag + "-depsfirst", files, modp, fl, env, caches=c2, pkg="./lib")
                 res["deps-first"] = build(tag + "-depsfirst", files, modp, fl, env, caches=c2)
+                # dependencies built first, then garble's own cache entries lost, then the whole program
+                c3 = fresh(tag + "-depsfirst-nogc")
+                build(tag + "-depsfirst-nogc", files, modp, fl, env, caches=c3, pkg="./dump")
+                build(tag + "-depsfirst-nogc", files, modp, fl, env, caches=c3, pkg="./lib")
+                shutil.rmtree(os.path.join(c3[1], "build"), ignore_errors=True)
+                res["deps-first-garble-cache-lost"] = build(tag + "-depsfirst-nogc", files, modp, fl, env, caches=c3)
             return res
         out = {}
         for r in pmap(runv, list(jobs), workers=4): out.update(r)
